@@ -110,7 +110,7 @@ PROPS = {
         'rule': 'w_c08: 1-3 observers with arbitrary (incl. shared, $-topic) subscriptions, 2-3 will clients (v3.1/3.1.1/5, will QoS/retain/properties/Will Delay absent,0,1,100, Session Expiry absent,0,1,100,2^32-1), '
                 'every way of ending a connection (close, DISCONNECT 0x00/0x04 with or without expiry, protocol errors, keep-alive timeout, take-over, TerminateSession online/offline), real sleeps of 0.4/1.3/1.8 s around 1 s timers, '
                 'OnWillPublish drop/rewrite hook; oracle: the will is published exactly once, when due, to the then-matching subscribers with its fields, never after DISCONNECT 0x00 nor after a resume, retained wills are stored and replayed',
-        'assumptions': ['delayed wills use real timers: scenarios sleep 0.4 s (surely not fired) or >= 1.3 s (surely fired) around 1 s delays'],
+        'assumptions': ['inside one (sleep ..) step the model fires keep-alive timeouts before delayed wills; the real order is decided by the clock: the generator never lets a keep-alive timeout and a 1 s timer (will delay / session expiry of 1 s) meet in one scenario', 'delayed wills use real timers: scenarios sleep 0.4 s (surely not fired) or >= 1.3 s (surely fired) around 1 s delays'],
         'trusted': ['harness/wire_runner.go'],
     },
     'C06': {
